@@ -152,6 +152,10 @@ func (il *IPRequestLimiter) dump() {
 func ipFromRequest(req *http.Request) (string, error) {
 	forwardIP := req.Header.Get("X-Forwarded-For")
 	if forwardIP != "" {
+		// "client, proxy1, proxy2": every proxy appends the address it got the request from
+		if client, _, isList := strings.Cut(forwardIP, ","); isList && strings.TrimSpace(client) != "" {
+			forwardIP = client
+		}
 		if parsedIP := net.ParseIP(strings.TrimSpace(forwardIP)); parsedIP != nil {
 			return parsedIP.String(), nil // same key for every spelling of one address, as for RemoteAddr below
 		}
